@@ -198,5 +198,3 @@ func init() {
 			"runtime_lookahead_reductions_checked", "lookback_pairs_checked", "accepting_pairs", "markers_compared", "traces_accepted", "traces_rejected", "traces_accepted_before_end_of_input", "predicate_evaluations"},
 	})
 }
-
-
